@@ -3,11 +3,12 @@
     [Print Assumptions], and non-vacuity examples.
     Spec10.v: XSD Structures 3.11.4 / 3.11.5 over element trees with an abstract value type.
     Model10.v: XPathMatcher, SelectorMatcher, FieldMatcher, ValueStore, ValueStoreCache, IdentityConstraintHandler.
-    PARTIAL items (stated in checks/meta/C10.json): the matcher theorems [T10_xpath_child_only_bounded],
-    [T10_xpath_desc_simple_bounded], [T10_xpath_sound_bounded] and [T10_fixed_matcher_bounded] are exhaustive over a
-    finite universe (484 trees x 39 step lists), not proved for all trees; the store / keyref theorems are unbounded. *)
+    The matcher theorems T10_xpath_child_only, T10_xpath_sound and T10_fixed_matcher (".//" paths) are proved for all
+    trees and paths (Proofs10d-g); the [_bounded] theorems are kept (they additionally cover the fixed matcher on
+    paths without ".//" and exactness of ".//" + one step, which are not proved unboundedly).  No theorem relates the
+    whole-document run_doc to doc_viols (T10_scope): see checks/meta/C10.json. *)
 From Coq Require Import NArith List Bool Arith.
-From XV Require Import C10.Spec10 C10.Model10 C10.Values10 C10.Proofs10a C10.Proofs10b C10.Proofs10c.
+From XV Require Import C10.Spec10 C10.Model10 C10.Values10 C10.Proofs10a C10.Proofs10b C10.Proofs10c C10.Proofs10d C10.Proofs10e C10.Proofs10f C10.Proofs10g.
 Import ListNotations.
 
 (** *** T10_store: duplicate detection of the value store = clause 4.1 / 4.2.2, for any value type whose equality
@@ -132,6 +133,46 @@ Theorem T10_xpath_context_refuted :
   exists (p : spath) (t : tree nat), sel_eval nat [p] t = [] /\ matcher_selects nat false (compile_path p) t = [[]].
 Proof. exists (mkSpath true [NTName 0] None), (Node 0%N [] false false 0 [Node 1%N [] false false 0 []]). vm_compute. auto. Qed.
 Print Assumptions T10_xpath_context_refuted.
+
+(** T10_xpath_child_only (unbounded): for every tree and every list of child steps (no ".//"), the streaming matcher
+    as written (startElement/endElement driven over the tree, SelectorMatcher's value-scope trigger) selects exactly
+    the specification's node set, in the same order *)
+Theorem T10_xpath_child_only : forall (V : Type) (steps : list ntest) (t : tree V),
+  matcher_selects V false (compile_path (mkSpath false steps None)) t = sel_path V (mkSpath false steps None) t.
+Proof. exact matcher_child_only_exact. Qed.
+Print Assumptions T10_xpath_child_only.
+Example child_only_nontrivial :
+  sel_path nat (mkSpath false [NTName 1; NTAny] None)
+           (Node 0%N [] false false 0 [Node 1%N [] false false 0 [Node 2%N [] false false 0 []; Node 3%N [] false false 0 []];
+                                       Node 2%N [] false false 0 [Node 2%N [] false false 0 []]]) = [[0; 0]; [0; 1]].
+Proof. vm_compute. reflexivity. Qed.
+
+(** T10_fixed_matcher (unbounded, ".//" paths): the repaired set-of-positions matcher (fixed = true) -- the defect switch
+    that attributes failing inputs to F14/F26 -- selects exactly the specification's node set for every tree and every
+    path  .//s1/.../sn  (n >= 1).  (For paths without ".//" the faithful matcher is already exact, T10_xpath_child_only;
+    the fixed matcher on those paths is covered by T10_fixed_matcher_bounded only.) *)
+Theorem T10_fixed_matcher : forall (V : Type) (s1 : ntest) (r0 : list ntest) (t : tree V) (x : addr),
+  In x (matcher_selects V true (compile_path (mkSpath true (s1 :: r0) None)) t) <->
+  In x (sel_path V (mkSpath true (s1 :: r0) None) t).
+Proof. exact fixed_matcher_desc. Qed.
+Print Assumptions T10_fixed_matcher.
+
+(** T10_xpath_sound (unbounded): the streaming matcher as written never starts a value scope at an element outside the
+    specification's node set, for every tree and every path .//s1/.../sn -- provided the context element is not itself
+    matched by s1 (exactly the class of finding F26, see T10_xpath_context_refuted).  Together with T10_xpath_refuted
+    (F14: it can miss nodes) this pins the matcher's behaviour on ".//" paths: a subset, not always the whole set. *)
+Theorem T10_xpath_sound : forall (V : Type) (s1 : ntest) (r0 : list ntest) (t : tree V) (x : addr),
+  ntest_ok s1 (t_name t) = false ->
+  In x (matcher_selects V false (compile_path (mkSpath true (s1 :: r0) None)) t) ->
+  In x (sel_path V (mkSpath true (s1 :: r0) None) t).
+Proof. exact matcher_sound_desc. Qed.
+Print Assumptions T10_xpath_sound.
+Example sound_nontrivial :
+  let t := Node 0%N [] false false 0 [Node 1%N [] false false 0 [Node 100%N [] true false 0 []; Node 1%N [] false false 0 [Node 100%N [] true false 0 []]]] in
+  ntest_ok (NTName 1) (t_name t) = false /\
+  matcher_selects nat false (compile_path (mkSpath true [NTName 1; NTName 100] None)) t = [[0; 0]] /\
+  sel_path nat (mkSpath true [NTName 1; NTName 100] None) t = [[0; 0]; [0; 1; 0]].     (* sound, a strict subset here *)
+Proof. vm_compute. auto. Qed.
 
 (** PARTIAL (bounded-exhaustive, not the unbounded claim): over all 484 trees of [universe] and all 39 step lists
     of 1..3 steps over {name 1, name 2, *}: *)
